@@ -505,7 +505,20 @@ func decideProperty(ps *PropSpec, l *Ledger, known *KnownFile, cfg *Config, opts
 		"exhaustive":          false,
 	}
 	if self != nil {
-		cov["self_validation"] = self.forRules(ruleIDs)
+		sv := self.forRules(ruleIDs)
+		cov["self_validation"] = sv
+		if list, ok := sv.([]VariantResult); ok {
+			nOK, nBad := 0, 0
+			for _, v := range list {
+				if v.OK {
+					nOK++
+				} else {
+					nBad++
+					fmt.Printf("SELF-VALIDATION property=%s variant=%s kind=%s: expected %s; observed %s (this concerns the checker, not /repo)\n", ps.ID, v.Name, v.Kind, v.Expected, v.Observed)
+				}
+			}
+			cov["self_validation_summary"] = map[string]int{"variants_replayed_for_this_property": len(list), "as_expected": nOK, "not_as_expected": nBad}
+		}
 	}
 	var violList []any
 	for _, o := range newViol {
